@@ -110,18 +110,47 @@ func checkQuantifier(r *Run, prog *Program, a *Anchors, pfx string) {
 	ke := &kindEnv{prog: prog}
 	classes := map[string]int{}
 	bindingChecks = 0
+	// the four binding forms and the names each of them sets (the grammar side is checked by C01's binding-modes rule)
+	modeNames := map[string][]string{"CollectionBindDefault": {"Default"}, "CollectionBindIndex": {"Index"}, "CollectionBindValue": {"Value"}, "CollectionBindIndexAndValue": {"Index", "Value"}}
+	modeT := prog.grammarType("CollectionBindMode")
+	var modes []*types.Const
+	if modeT != nil {
+		modes = prog.enumConsts(modeT)
+	}
+	for _, mc := range modes {
+		if _, ok := modeNames[mc.Name()]; !ok {
+			r.Check(pfx+".operator-has-spec", mc.Name(), prog.pos(mc.Pos()), false, "binding mode "+mc.Name()+" is not one of the four forms of the statement")
+		}
+	}
+	if len(modes) == 0 {
+		r.Fail("unresolved-anchor", pfx+".fold", "CollectionBindMode", "", "binding modes not found")
+		return
+	}
 	for _, oc := range prog.enumConsts(opT) {
 		isAll := oc.Name() == "CollectionOpAll"
 		isAny := oc.Name() == "CollectionOpAny"
 		r.Check(pfx+".operator-has-spec", oc.Name(), prog.pos(oc.Pos()), isAll || isAny, "collection operator "+oc.Name()+" is neither `any` nor `all`")
+		for _, mc := range modes {
 		for _, o := range []outcome{oT, oF, oEF, oET} {
-			o, oc := o, oc
+			o, oc, mc := o, oc, mc
 			ps := NewPathSim(prog)
 			ps.maxVisits = 3
 			ps.Inline = func(c *ssa.Function) bool {
 				return prog.InModule(c) && c != a.Dispatch && c != a.GetValue && c != wlv && c != a.GetOpts && c != a.MatchEval && !strings.HasPrefix(c.Name(), "With")
 			}
-			ps.Seed = func(st *pstate) { st.eqc[opKey] = constKey(oc) }
+			ps.Seed = func(st *pstate) {
+				st.eqc[opKey] = constKey(oc)
+				st.eqc[loadField(pExpr, "NameBinding", "Mode").Key()] = constKey(mc)
+				for _, f := range []string{"Default", "Index", "Value"} {
+					set := false
+					for _, n := range modeNames[mc.Name()] {
+						if n == f {
+							set = true
+						}
+					}
+					assume(st, &Sym{K: sCmp, Op: token.EQL, A: loadField(pExpr, "NameBinding", f), B: &Sym{K: sConst, C: constant.MakeString("")}}, !set)
+				}
+			}
 			errs := map[string]bool{}
 			ps.Model = func(ev *Event) *Sym {
 				if ev.Callee == a.GetValue {
@@ -151,7 +180,7 @@ func checkQuantifier(r *Run, prog *Program, a *Anchors, pfx string) {
 						v = ev.Res
 					}
 				}
-				cell := fmt.Sprintf("%s[body=%s]", oc.Name(), o)
+				cell := fmt.Sprintf("%s[%s,body=%s]", oc.Name(), strings.TrimPrefix(mc.Name(), "CollectionBind"), o)
 				var bodies []Event
 				for _, ev := range sm.Events() {
 					if ev.Instr != nil && ev.Callee != nil && len(ev.Args) > 0 && ev.Args[0].Key() == loadField(pExpr, "Inner").Key() && isBoolErr(ev.Callee.Signature) {
@@ -260,6 +289,7 @@ func checkQuantifier(r *Run, prog *Program, a *Anchors, pfx string) {
 				r.Check(pfx+".fold", cell+":"+cls, pos, len(probs) == 0, strings.Join(uniq(probs), "; ")+trail)
 			}
 		}
+		}
 	}
 	for _, cl := range []string{"list", "map", "other"} {
 		r.Check(pfx+".fold-classes", cl, prog.pos(fn.Pos()), classes[cl] > 0, "no path of the collection evaluator handles collections of class "+cl)
@@ -308,7 +338,7 @@ func checkBindings(prog *Program, sm *Summary, wlv *ssa.Function, pExpr, v *Sym,
 		}
 		// bound only when the name is set
 		if eq, ok := evalEq(sm.St, name, &Sym{K: sConst, C: constant.MakeString("")}); !ok || eq {
-			probs = append(probs, "NameBinding."+which+" is bound without testing that it is non-empty")
+			probs = append(probs, "NameBinding."+which+" is bound although this binding form does not set it")
 		}
 		kind := "concrete"
 		if !path.IsNil() {
